@@ -27,7 +27,7 @@ def step : Sexp → Option Sexp
       pure (list [atom "ok", s o.full,
         list [atom "ibm", ofBool i.ibm],
         list (atom "strpp" :: i.strpp.map hitS),
-        list [atom "intpp", ofBool i.intpp],
+        list (atom "intpp" :: i.intpp.map hitS),
         list [atom "convert", match i.convert with
           | none => atom "none"
           | some g => list [s g.ws, s g.pre, s g.convert, s g.post]],
@@ -38,8 +38,7 @@ def step : Sexp → Option Sexp
         list [atom "fypp", ofBool i.fypp],
         list [atom "effective", if ampCase o then atom "amp" else s (effective o)],
         list [atom "known", ofBool (KnownTokInString l), ofBool (KnownTokInComment l),
-              ofBool (KnownDirectiveMidline l nl), ofBool (KnownOpenKeyInProt l), ofBool (KnownConvertFirst l nl),
-              ofBool (KnownBothOpen l nl), ofBool (KnownLineInDirective l), ofBool (KnownMacroInIdent l)]])
+              ofBool (KnownOpenKeyInProt l), ofBool (KnownConvertFirst l nl), ofBool (KnownMacroInIdent l)]])
   | list [atom "segs", str b] =>
       pure (list (atom "ok" :: (segments b.toList).map fun p =>
         list [s p.code, atom (match p.kind with | .none => "none" | .str => "str" | .comment => "comment"), s p.prot]))
